@@ -65,6 +65,12 @@ type tcase struct {
 	Cyclic  bool     `json:"cyclic"`
 	// lifecycle histories emitted by spec/LifecycleTotal.tla (same shape as Lifecycle.tla behaviours)
 	Reqs []lcReq `json:"reqs"`
+	// request family: classes of method / path / query / headers and the program that inspects them
+	Method  string `json:"method"`
+	Path    string `json:"path"`
+	Query   string `json:"query"`
+	Headers string `json:"headers"`
+	Prog    string `json:"prog"`
 	// raw: direct VCL (seeded regression inputs)
 	Setup string `json:"setup"`
 	Stmt  string `json:"stmt"`
@@ -76,6 +82,8 @@ type behaviour struct {
 	Case    tcase    `json:"case"`
 	Allowed []string `json:"allowed"`
 	Predict string   `json:"predict"`
+	// k = "prog": a whole program of spec/EvalGen.tla (random walk over the statement alphabet of C07)
+	Prog *evalrt.Program `json:"prog,omitempty"`
 }
 
 type result struct {
@@ -430,6 +438,10 @@ func run(args []string) int {
 			r = runInclude(c)
 		case "lifecycle":
 			r = runLifecycle(c)
+		case "request":
+			r = runRequest(c)
+		case "prog":
+			r = runProg(b.Prog)
 		default:
 			r = result{Outcome: "unbound", Msg: "unknown case kind " + c.K}
 		}
@@ -608,4 +620,140 @@ func runLifecycle(c *tcase) result {
 	}
 	res.PerReq = strings.Join(per, ",")
 	return res
+}
+
+// ---------------------------------------------------------------- request family
+
+var reqProgs = map[string]string{
+	"echo": `sub vcl_recv {
+  set req.http.X = req.url;
+  set req.http.Y = req.http.A req.method req.url.path req.url.qs req.url.basename req.url.ext req.url.dirname;
+  set req.http.Z = req.http.host req.proto client.ip;
+  log req.http.X req.http.Y req.http.Z;
+  if (req.http.A) { set req.http.L = std.strlen(req.http.A); }
+  unset req.http.A;
+  error 600;
+}
+`,
+	"query": `sub vcl_recv {
+  set req.url = querystring.sort(req.url);
+  set req.http.Q1 = querystring.get(req.url, "a");
+  set req.url = querystring.filter(req.url, "a");
+  set req.url = querystring.add(req.url, "z", req.http.A);
+  set req.http.Q2 = subfield(req.url.qs, "b", "&");
+  set req.url = querystring.clean(req.url);
+  set req.url = querystring.remove(req.url);
+  set req.http.N = std.atoi(req.http.A);
+  set req.http.U = urldecode(req.url) urlencode(req.http.A);
+  error 600;
+}
+`,
+	"regex": `sub vcl_recv {
+  if (req.http.A ~ "(a+)+$") { set req.http.R1 = "1"; }
+  if (req.url ~ "^/(.*)/(.*)$") { set req.http.G = re.group.2 re.group.1; }
+  set req.http.R2 = regsuball(req.url, "a*", "x");
+  set req.http.R3 = regsub(req.http.A, "(.)(.)", "\\2\\1");
+  if (req.url.path ~ "(?i)\\.(JPG|png)$" || req.http.A !~ "^$") { set req.http.R4 = "1"; }
+  error 600;
+}
+`,
+	"cookie": `sub vcl_recv {
+  set req.http.C1 = req.http.Cookie:a;
+  unset req.http.Cookie:a;
+  set req.http.Cookie:b = req.http.A;
+  set req.http.C2 = req.http.Cookie;
+  set req.http.A:k = "v";
+  set req.http.C3 = req.http.A:k;
+  unset req.http.A:k;
+  add req.http.A = "again";
+  error 600;
+}
+`,
+}
+
+func runRequest(c *tcase) result {
+	prog, ok := reqProgs[c.Prog]
+	if !ok {
+		return result{Outcome: "unbound", Msg: "unknown program " + c.Prog}
+	}
+	vcl := prog + "sub vcl_error {\n  return (deliver);\n}\n"
+	method := map[string]string{"GET": "GET", "POST": "POST", "PURGE": "FASTLYPURGE", "WEIRD": "M-SEARCH"}[c.Method]
+	path := map[string]string{"root": "/", "deep": "/a/b/c.d/e.jpg", "long": "/" + strings.Repeat("a", 8200),
+		"nonascii": "/\u65e5\u672c/\u00e9 x", "encoded": "/%2e%2e/%00/a%20b"}[c.Path]
+	query := map[string]string{"none": "", "empty": "?", "dup": "?a=1&a=2&b&=c&a", "long": "?a=" + strings.Repeat("b", 9000),
+		"odd": "?%zz=%&&&;a=b=c"}[c.Query]
+	u, err := url.ParseRequestURI(path + query)
+	if err != nil {
+		// net/http would reject this request line before the simulator sees it
+		u = &url.URL{Path: path, RawQuery: strings.TrimPrefix(query, "?")}
+	}
+	req := &http.Request{Method: method, URL: u, Proto: "HTTP/1.1", ProtoMajor: 1, ProtoMinor: 1, Header: http.Header{},
+		Host: "localhost", RemoteAddr: "192.0.2.1:1234", Body: http.NoBody, RequestURI: u.RequestURI()}
+	switch c.Headers {
+	case "none":
+	case "plain":
+		req.Header.Set("A", "abc")
+		req.Header.Set("Cookie", "a=1; b=2")
+	case "dup":
+		req.Header.Add("A", "1")
+		req.Header.Add("A", "2")
+		req.Header.Add("Cookie", "a=1")
+		req.Header.Add("Cookie", "a=2; ; =x; b")
+	case "empty":
+		req.Header.Set("A", "")
+		req.Header.Set("Cookie", "")
+	case "long":
+		req.Header.Set("A", strings.Repeat("h", 9000))
+		req.Header.Set("Cookie", "a="+strings.Repeat("c", 40000))
+	case "evil":
+		req.Header.Set("A", strings.Repeat("a", 40)+"!")
+		req.Header.Set("Cookie", "a=\"q\"; $Version=1")
+	case "nonascii":
+		req.Header.Set("A", "\u65e5\u672c\x00\xff")
+		req.Header.Set("Cookie", "a=\u00e9")
+	}
+	ip := interpreter.New(context.WithResolver(resolver.NewStaticResolver("main", vcl)))
+	ip.Debugger = quiet{}
+	rec := httptest.NewRecorder()
+	ip.ServeHTTP(rec, req)
+	hr := rec.Result()
+	body, _ := io.ReadAll(hr.Body)
+	var rep struct {
+		Error string `json:"error"`
+	}
+	json.Unmarshal(body, &rep) // nolint:errcheck
+	text := fmt.Sprintf("%s %s headers=%s\n%s", method, firstLine(u.String()), c.Headers, vcl)
+	if rep.Error != "" || hr.StatusCode >= 500 {
+		return result{Outcome: "error", Msg: firstLine(rep.Error), Text: text}
+	}
+	return result{Outcome: "value", Text: text}
+}
+
+// ---------------------------------------------------------------- whole programs of EvalGen.tla
+
+// runProg executes every top-level statement of a random program (also past the point where the reference
+// evaluator of C07 stops predicting); only totality is observed.
+func runProg(p *evalrt.Program) result {
+	if p == nil {
+		return result{Outcome: "unbound", Msg: "no program"}
+	}
+	r := evalrt.Renderer{Scope: p.Scope, Style: evalrt.Style{ElseIf: "else if"}}
+	var text strings.Builder
+	for _, s := range p.Stmts {
+		text.WriteString(r.Stmt(s, ""))
+	}
+	m, err := evalrt.NewMachine(p.Scope, "")
+	if err != nil {
+		return result{Outcome: "unbound", Msg: err.Error()}
+	}
+	for _, s := range p.Stmts {
+		ss, perr := evalrt.ParseStatements(r.Stmt(s, ""))
+		if perr != nil {
+			return result{Outcome: "unbound", Msg: "statement does not parse: " + firstLine(perr.Error()), Text: text.String()}
+		}
+		if _, _, _, err := m.IP.ProcessBlockStatement(ss, interpreter.DebugPass, false); err != nil {
+			return result{Outcome: "error", Msg: firstLine(err.Error()), Text: text.String()}
+		}
+	}
+	return result{Outcome: "value", Text: text.String()}
 }
